@@ -20,7 +20,7 @@ import sys
 import time
 
 VERIF = os.path.dirname(os.path.dirname(os.path.abspath(__file__)))
-COQ = os.path.join(VERIF, 'coq')
+COQ = os.environ.get('VERIF_COQ') or os.path.join(VERIF, 'coq')
 REPO = os.environ.get('VERIF_REPO', '/repo')
 NPROC = min(16, os.cpu_count() or 4)
 
@@ -152,7 +152,7 @@ class Ctx:
                 self.build_ok = False
                 self.build_msg = t.stderr.strip() or 'translator failed'
                 return False
-            subprocess.run([os.path.join(VERIF, 'tools', 'mk_coqproject.sh')], check=True)
+            subprocess.run([os.path.join(VERIF, 'tools', 'mk_coqproject.sh')], check=True, env=dict(os.environ, VERIF_COQ=COQ))
             cmd = ['timeout', str(timeout), 'make', '-C', COQ, f'-j{NPROC}'] + list(targets)
             m = subprocess.run(cmd, capture_output=True, text=True)
             self.cov['checker_cmd'] = (f"tools/translate.py {REPO} coq/Gen && make -C coq -j{NPROC} "
